@@ -1,6 +1,7 @@
 package main
 
 import (
+	"go/constant"
 	"fmt"
 	"go/token"
 	"go/types"
@@ -16,10 +17,12 @@ func init() {
 	register(&Check{
 		ID:  "C40",
 		Run: runC40,
-		Explanation: "Decides the shared-state discipline that makes concurrent API use race-free: (R1 guarded-by) every read and write of font.userFontMetrics happens with font.userFontMetricsLock held (RLock suffices for reads), of font.loadUserFontsErr with font.loadUserFontsMutex held, and of the fields of pdfcpu.trustedCertificatePool with its embedded RWMutex held — lock state is a per-function must-dataflow (Lock/RLock gen, non-deferred Unlock kill) with entry states inherited from all call sites (requires-lock summaries) and, for closures, from the point where the closure is created (sync.Once.Do bodies); (R2 closed world) every package-level variable of the module that is written, or on which a method is invoked through an interface/pointer value, in code reachable from an exported function of pkg/api or pkg/pdfcpu is either in the guarded-by table, of a sync/atomic type, written only in package initialisers, or listed in the configuration-time / concurrency-safe tables with a reason (loggers, ConfigPath/UserFontDir/TrustedCertDir set while loading configuration — the property presupposes the configuration directory disabled); a new stateful package-level object (e.g. a shared hash.Hash or buffer) is reported; (R3 lock hygiene) every Lock/RLock in these packages is paired with a deferred or all-path Unlock on the same mutex, no function acquires font.loadUserFontsMutex while already inside loadUserFontsOnce.Do (the established order is mutex → once), and no RLock→Lock upgrade. NOT decided: determinism of results, races on data reachable only from caller-owned *model.Context values, std-lib internals.",
+		Explanation: "Decides the shared-state discipline that makes concurrent API use race-free: (R1 guarded-by) every read and write of font.userFontMetrics happens with font.userFontMetricsLock held (RLock suffices for reads), of font.loadUserFontsErr with font.loadUserFontsMutex held, and of the fields of pdfcpu.trustedCertificatePool with its embedded RWMutex held — lock state is a per-function must-dataflow (Lock/RLock gen, non-deferred Unlock kill) with entry states inherited from all call sites (requires-lock summaries) and, for closures, from the point where the closure is created (sync.Once.Do bodies); (R2 closed world) every package-level variable of the module that is written, or on which a method is invoked through an interface/pointer value, in code reachable from an exported function of pkg/api or pkg/pdfcpu is either in the guarded-by table, of a sync/atomic type, written only in package initialisers, or listed in the configuration-time / concurrency-safe tables with a reason (loggers, ConfigPath/UserFontDir/TrustedCertDir set while loading configuration — the property presupposes the configuration directory disabled); a new stateful package-level object (e.g. a shared hash.Hash or buffer) is reported; (R3 lock hygiene) every Lock/RLock in these packages is paired with a deferred or all-path Unlock on the same mutex, no function acquires font.loadUserFontsMutex while already inside loadUserFontsOnce.Do (the established order is mutex → once), and no RLock→Lock upgrade; (R4 escape) the address of a package-level variable of the module (taken as a value: assigned, passed, returned) is followed through locals, phis, parameters of statically resolved callees and results back to the call sites, and no store goes through a pointer that may hold it — a flow is cut only where the pointer was just compared nil or its pointee compared non-zero and the variable is an integer that starts at zero (the zero-sentinel idiom of the xref reader: `if off == nil || *off != 0`); addresses parked in heap fields are counted but not followed (stated limit); (R5 optimistic reads) a function that reads shared on-disk state without holding its lock and validates the read against a revision counter (buildCurrentCertificatePool against model.CertificateStoreRevision) reads the revision before the data on every path, hands back that earlier revision with the data, and reaches a success return only over the edge where a second revision read, made after the data read, equals the first. NOT decided: determinism of results, races on data reachable only from caller-owned *model.Context values, std-lib internals.",
 		Rules: []string{
 			"C40.R1 LOCK: guarded-by table with lock-state dataflow and call-site summaries",
 			"C40.R2 closed world of shared package-level state reachable from the API",
+			"C40.R4 escape: no store through a pointer that may hold the address of a package-level variable",
+			"C40.R5 shape: optimistic (revision-validated) reads of shared on-disk state",
 			"C40.R3 lock hygiene and lock order (mutex before once)",
 		},
 		Assumptions: []string{"configuration directory disabled (documented multi-threaded mode); loggers are configured before concurrent use"},
@@ -230,6 +233,10 @@ func runC40(c *Ctx) {
 	r.MinInst["C40.R1"] = 10
 	r.MinInst["C40.R2"] = 5
 	r.MinInst["C40.R3"] = 4
+	r.MinInst["C40.R4"] = 1
+	r.MinInst["C40.R5"] = 1
+	checkGlobalAddressEscapes(c)
+	checkOptimisticReads(c)
 	ls := &lockState{c: c, flows: map[*ssa.Function]*FactFlow{}, entry: map[*ssa.Function]map[string]bool{}, inProg: map[*ssa.Function]bool{}}
 	guarded := map[string]guardedVar{}
 	for _, g := range c40Guarded {
@@ -541,4 +548,448 @@ func findGlobal(p *Program, name string) *ssa.Global {
 		return g
 	}
 	return nil
+}
+
+// ---------------- round 2 of seeding: C40.R4 escaped addresses of package-level variables, C40.R5 optimistic reads ----------------
+
+// checkGlobalAddressEscapes (C40.R4): the closed world of R2 classifies package-level variables by who writes them *by name*.
+// A variable whose address is taken (&zero) can also be written through the pointer. The set of SSA values that may hold the
+// address of a package-level variable of the module is propagated through phis, local cells, static call arguments and
+// returned values; a store through such a pointer outside an init function writes shared state behind R2's back — two
+// goroutines reading PDFs would race on it (and see each other's values).
+func checkGlobalAddressEscapes(c *Ctx) {
+	p, r := c.P, c.R
+	cg := c.CG()
+	_ = cg
+	may := map[ssa.Value]*ssa.Global{}
+	heapEscapes := map[*ssa.Global]int{} // stores of &G into a heap field or element
+	may0 := map[*ssa.Global]bool{}        // globals whose address is used as a value at all
+	valueGuarded := 0                     // flows cut because the pointee was just seen non-zero (or the pointer nil)
+	var work []ssa.Value
+	add := func(v ssa.Value, g *ssa.Global) {
+		if v == nil {
+			return
+		}
+		if _, ok := may[v]; ok {
+			return
+		}
+		may[v] = g
+		work = append(work, v)
+	}
+	isShared := func(g *ssa.Global) bool {
+		if g.Pkg == nil || !strings.HasPrefix(g.Pkg.Pkg.Path(), modPath) {
+			return false
+		}
+		t := g.Type().(*types.Pointer).Elem()
+		switch t.Underlying().(type) {
+		case *types.Basic, *types.Struct, *types.Array:
+			s := t.String()
+			return !strings.HasPrefix(s, "sync.") && !strings.Contains(s, "atomic.")
+		}
+		return false
+	}
+	// seeds: a Global used as a value (not merely as the address operand of a load/store/field access)
+	for _, fn := range p.Funcs {
+		eachInstr(fn, func(_ *ssa.BasicBlock, _ int, i ssa.Instruction) {
+			for _, op := range i.Operands(nil) {
+				g, ok := (*op).(*ssa.Global)
+				if !ok || !isShared(g) {
+					continue
+				}
+				switch x := i.(type) {
+				case *ssa.UnOp:
+					continue // load
+				case *ssa.Store:
+					if x.Addr == ssa.Value(g) {
+						continue // direct store: R2's business
+					}
+					// the address itself is stored somewhere: a local cell is followed (its loads may hold it),
+					// a heap field is not (see heapEscapes below)
+					if al, ok := x.Addr.(*ssa.Alloc); ok {
+						for _, r2 := range *al.Referrers() {
+							if ld, ok := r2.(*ssa.UnOp); ok && ld.Op == token.MUL {
+								add(ld, g)
+							}
+						}
+					} else {
+						heapEscapes[g]++
+					}
+					may0[g] = true
+				case *ssa.FieldAddr, *ssa.IndexAddr:
+					continue // access path, not an escape of the whole address (kept simple)
+				case *ssa.Phi:
+					add(x, g)
+				case ssa.CallInstruction:
+					callee := staticCallee(x)
+					if callee == nil || !isSubject(callee) {
+						continue
+					}
+					for k, a := range x.Common().Args {
+						if a == ssa.Value(g) && k < len(callee.Params) {
+							add(callee.Params[k], g)
+						}
+					}
+				case *ssa.Return:
+					// returned to callers
+					for ri, rv := range x.Results {
+						if rv == ssa.Value(g) {
+							for _, caller := range cg.In[fn] {
+								eachInstr(caller, func(_ *ssa.BasicBlock, _ int, ci ssa.Instruction) {
+									cc, ok := ci.(*ssa.Call)
+									if !ok {
+										return
+									}
+									if f := staticCallee(cc); f == nil || unwrapSynthetic(f) != fn {
+										return
+									}
+									if len(x.Results) == 1 {
+										add(cc, g)
+									} else {
+										for _, rf := range *cc.Referrers() {
+											if ex, ok := rf.(*ssa.Extract); ok && ex.Index == ri {
+												add(ex, g)
+											}
+										}
+									}
+								})
+							}
+						}
+					}
+				case *ssa.MakeInterface, *ssa.ChangeType, *ssa.Convert:
+					add(i.(ssa.Value), g)
+				}
+			}
+		})
+	}
+	// propagation
+	for len(work) > 0 {
+		v := work[len(work)-1]
+		work = work[:len(work)-1]
+		g := may[v]
+		refs := v.Referrers()
+		if refs == nil {
+			continue
+		}
+		var nsf *FactFlow
+		if zeroForever(g) {
+			nsf = notSentinelFlow(v)
+		}
+		excluded := func(at ssa.Instruction) bool {
+			if nsf == nil {
+				return false
+			}
+			if ph, ok := at.(*ssa.Phi); ok {
+				// the value arrives over the predecessor edge(s) carrying v
+				for k, ev := range ph.Edges {
+					if ev != v {
+						continue
+					}
+					pred := ph.Block().Preds[k]
+					okEdge := nsf.Holds(pred.Instrs[len(pred.Instrs)-1], "x")
+					for si, sb := range pred.Succs {
+						if sb == ph.Block() && len(nsf.genE[Edge{pred, si}]) > 0 {
+							okEdge = true
+						}
+					}
+					if !okEdge {
+						return false
+					}
+				}
+				return true
+			}
+			return nsf.Holds(at, "x")
+		}
+		for _, rf := range *refs {
+			if excluded(rf) {
+				valueGuarded++
+				continue
+			}
+			switch x := rf.(type) {
+			case *ssa.Phi:
+				add(x, g)
+			case *ssa.Store:
+				if x.Val == v {
+					// pointer stored into a local cell: loads of that cell may hold it
+					if al, ok := x.Addr.(*ssa.Alloc); ok {
+						for _, r2 := range *al.Referrers() {
+							if ld, ok := r2.(*ssa.UnOp); ok && ld.Op == token.MUL {
+								add(ld, g)
+							}
+						}
+					}
+				}
+			case ssa.CallInstruction:
+				callee := staticCallee(x)
+				if callee == nil || !isSubject(callee) {
+					continue
+				}
+				for k, a := range x.Common().Args {
+					if a == v && k < len(callee.Params) {
+						add(callee.Params[k], g)
+					}
+				}
+			case *ssa.Return:
+				fn := x.Parent()
+				for ri, rv := range x.Results {
+					if rv != v {
+						continue
+					}
+					for _, caller := range cg.In[fn] {
+						eachInstr(caller, func(_ *ssa.BasicBlock, _ int, ci ssa.Instruction) {
+							cc, ok := ci.(*ssa.Call)
+							if !ok {
+								return
+							}
+							if f := staticCallee(cc); f == nil || unwrapSynthetic(f) != fn {
+								return
+							}
+							if len(x.Results) == 1 {
+								add(cc, g)
+							} else {
+								for _, r3 := range *cc.Referrers() {
+									if ex, ok := r3.(*ssa.Extract); ok && ex.Index == ri {
+										add(ex, g)
+									}
+								}
+							}
+						})
+					}
+				}
+			case *ssa.ChangeType:
+				add(x, g)
+			}
+		}
+	}
+	// stores through such pointers
+	n := 0
+	perGlobal := map[*ssa.Global]string{}
+	for _, fn := range p.Funcs {
+		if strings.HasPrefix(fn.Name(), "init") && fn.Parent() == nil {
+			continue
+		}
+		fn := fn
+		eachInstr(fn, func(_ *ssa.BasicBlock, _ int, i ssa.Instruction) {
+			st, ok := i.(*ssa.Store)
+			if !ok {
+				return
+			}
+			if _, isG := st.Addr.(*ssa.Global); isG {
+				return
+			}
+			if g, ok := may[st.Addr]; ok {
+				n++
+				perGlobal[g] = p.Pos(st.Pos()) + " in " + FuncID(fn)
+			}
+		})
+	}
+	escaped := map[*ssa.Global]bool{}
+	for _, g := range may {
+		escaped[g] = true
+	}
+	for g := range may0 {
+		escaped[g] = true
+	}
+	var gs []*ssa.Global
+	for g := range escaped {
+		gs = append(gs, g)
+	}
+	sort.Slice(gs, func(i, j int) bool { return gs[i].String() < gs[j].String() })
+	for _, g := range gs {
+		name := strings.TrimPrefix(g.Pkg.Pkg.Path(), modPath+"/") + "." + g.Name()
+		if where, bad := perGlobal[g]; bad {
+			r.Bad("C40.R4", name, "address escapes", p.Pos(g.Pos()), "the address of package-level variable "+g.Name()+" reaches a pointer that is stored through ("+where+"): concurrent API calls write the same shared variable without a lock, and each call sees the other's value")
+		} else {
+			msg := "the address is handed around (locals, parameters, results) but nothing is stored through it"
+			if k := heapEscapes[g]; k > 0 {
+				msg += fmt.Sprintf("; it is also stored into %d heap field(s), which this rule does not follow (stated limit)", k)
+			}
+			r.OK("C40.R4", name, "address escapes", p.Pos(g.Pos()), msg, true)
+		}
+	}
+	r.Note(fmt.Sprintf("C40.R4: %d flow(s) of a zero sentinel's address cut by a dominating \"*p != 0\" / \"p == nil\" test", valueGuarded))
+	if len(gs) == 0 {
+		r.Bad("C40.R4", "-", "anchor", "", "UNRESOLVED-ANCHOR: no package-level variable has its address taken (the rule would be vacuous; the pinned tree has pkg/pdfcpu.zero)")
+	}
+}
+
+// c40OptimisticReads: functions that read shared on-disk state without a lock and validate the read with a revision counter.
+var c40OptimisticReads = map[string]struct{ version, data string }{
+	"pkg/pdfcpu.buildCurrentCertificatePool": {"pkg/pdfcpu/model.CertificateStoreRevision", "pkg/pdfcpu.buildCertificatePool"},
+}
+
+// checkOptimisticReads (C40.R5): the revision is read before the data, the value returned with the data is that earlier
+// revision, and a success return is reached only on the edge where a second revision read (after the data) equals the first.
+func checkOptimisticReads(c *Ctx) {
+	p, r := c.P, c.R
+	for fid, spec := range c40OptimisticReads {
+		fn := p.Func(fid)
+		if fn == nil {
+			r.Bad("C40.R5", fid, "anchor", "", "UNRESOLVED-ANCHOR")
+			continue
+		}
+		var versions []*ssa.Call
+		var data *ssa.Call
+		eachInstr(fn, func(_ *ssa.BasicBlock, _ int, i ssa.Instruction) {
+			if call, ok := i.(*ssa.Call); ok {
+				_, ref := callRef(call)
+				if ref == spec.version {
+					versions = append(versions, call)
+				}
+				if ref == spec.data {
+					data = call
+				}
+			}
+		})
+		pos := p.Pos(fn.Pos())
+		if data == nil || len(versions) == 0 {
+			r.Bad("C40.R5", fid, "optimistic read", pos, "UNRESOLVED-ANCHOR: revision or data read not found")
+			continue
+		}
+		// V1: a revision read that is executed before the data read on every path
+		ff := NewFactFlow(fn, func(i ssa.Instruction) []string {
+			for k, v := range versions {
+				if i == ssa.Instruction(v) {
+					return []string{fmt.Sprintf("v%d", k)}
+				}
+			}
+			return nil
+		}, nil, func(i ssa.Instruction) []string {
+			// a new loop iteration starts over
+			return nil
+		}, nil)
+		var before *ssa.Call
+		for k, v := range versions {
+			if ff.Holds(data, fmt.Sprintf("v%d", k)) {
+				before = v
+			}
+		}
+		okReturn := before != nil
+		why := ""
+		if before == nil {
+			why = "no revision read precedes the data read"
+		} else {
+			// the comparison before == <later revision read>
+			var eqEdges []Edge
+			for _, rf := range *before.Referrers() {
+				cmp, ok := rf.(*ssa.BinOp)
+				if !ok || (cmp.Op != token.EQL && cmp.Op != token.NEQ) {
+					continue
+				}
+				other := cmp.Y
+				if cmp.Y == ssa.Value(before) {
+					other = cmp.X
+				}
+				oc, ok := other.(*ssa.Call)
+				if !ok {
+					continue
+				}
+				if _, ref := callRef(oc); ref != spec.version {
+					continue
+				}
+				eqEdges = append(eqEdges, condEdges(cmp, cmp.Op == token.EQL)...)
+			}
+			for _, ret := range returnsOf(fn) {
+				if k, has := returnErrKind(ret); has && k == errNonNil {
+					continue
+				}
+				dom := false
+				for _, e := range eqEdges {
+					if edgeDominates(e, ret.Block()) {
+						dom = true
+					}
+				}
+				returnsBefore := false
+				for _, rv := range ret.Results {
+					if rv == ssa.Value(before) {
+						returnsBefore = true
+					}
+				}
+				if !dom || !returnsBefore {
+					okReturn = false
+					why = "a success return is not on the edge where the revision read before the data equals the one read after it, or does not return the earlier revision"
+				}
+			}
+		}
+		if okReturn {
+			r.OK("C40.R5", fid, "optimistic read", pos, "revision read before the data, re-read and compared after it; the data is returned with the earlier revision only on the equal edge", true)
+		} else {
+			r.Bad("C40.R5", fid, "optimistic read", pos, why+": a concurrent import between listing the directory and tagging the result marks a stale snapshot as current, and every later validation in the process trusts the stale pool")
+		}
+	}
+}
+
+// notSentinelFlow computes where pointer v provably differs from the address of a package-level scalar that is
+// zero for the whole run: past the true edge of "v == nil" or of "*v != 0" (and the false edge of "*v == 0").
+// The argument is inductive: while nothing is stored through &G, *(&G) == 0, so a pointer whose pointee
+// was just seen non-zero is not &G.
+func notSentinelFlow(v ssa.Value) *FactFlow {
+	fn := v.Parent()
+	if fn == nil {
+		return nil
+	}
+	genE := map[Edge][]string{}
+	for _, e := range nilCheckEdges(v, true) {
+		genE[e] = append(genE[e], "x")
+	}
+	for _, a := range aliasesOf(v) {
+		refs := a.Referrers()
+		if refs == nil {
+			continue
+		}
+		for _, r := range *refs {
+			ld, ok := r.(*ssa.UnOp)
+			if !ok || ld.Op != token.MUL || ld.X != a || ld.Referrers() == nil {
+				continue
+			}
+			for _, r2 := range *ld.Referrers() {
+				b, ok := r2.(*ssa.BinOp)
+				if !ok || (b.Op != token.EQL && b.Op != token.NEQ) {
+					continue
+				}
+				other := b.Y
+				if b.X != ssa.Value(ld) {
+					other = b.X
+				}
+				k, ok := other.(*ssa.Const)
+				if !ok || k.Value == nil || k.Value.Kind() != constant.Int {
+					continue
+				}
+				if z, exact := constant.Int64Val(k.Value); !exact || z != 0 {
+					continue
+				}
+				for _, e := range condEdges(b, b.Op == token.NEQ) {
+					genE[e] = append(genE[e], "x")
+				}
+			}
+		}
+	}
+	if len(genE) == 0 {
+		return nil
+	}
+	return NewFactFlow(fn, nil, genE, nil, nil)
+}
+
+// zeroForever: G is an integer variable whose initial value is zero (no initialiser, or the constant 0).
+func zeroForever(g *ssa.Global) bool {
+	b, ok := g.Type().(*types.Pointer).Elem().Underlying().(*types.Basic)
+	if !ok || b.Info()&types.IsInteger == 0 {
+		return false
+	}
+	init := g.Pkg.Func("init")
+	okInit := true
+	if init != nil {
+		eachInstr(init, func(_ *ssa.BasicBlock, _ int, i ssa.Instruction) {
+			if st, ok := i.(*ssa.Store); ok && st.Addr == ssa.Value(g) {
+				k, ok := st.Val.(*ssa.Const)
+				if !ok || k.Value == nil {
+					okInit = false
+					return
+				}
+				if z, exact := constant.Int64Val(k.Value); !exact || z != 0 {
+					okInit = false
+				}
+			}
+		})
+	}
+	return okInit
 }
